@@ -142,6 +142,10 @@ def install(ctx):
                qv.utils.BO, qv.QUBO, qv.QUSO, qv.PUBO, qv.PUSO, qv.PCBO, qv.PCSO, qv.utils.Conversions]
     for cls in classes:
         for n, v in list(vars(cls).items()):
+            if isinstance(v, (staticmethod, classmethod)) and n in NONMUT_METHODS:
+                # (remove_ancilla_from_solution is a classmethod: its solution argument is the caller's)
+                setattr(cls, n, type(v)(monitored("%s.%s" % (cls.__name__, n), v.__func__, True)))
+                continue
             if isinstance(v, (staticmethod, classmethod, property)) or not callable(v):
                 continue
             if n in NONMUT_METHODS:
